@@ -637,11 +637,20 @@ def correspondence(ctx):
     rng = ctx.subrng("corr")
     cases = small_exhaustive_cases() + gen_pair_cases(rng, ctx.budget(60, 600), 12)
     check_pair_cases(ctx, out, cases)
-    _brute_force(ctx, out, rng)
-    _classic_tie(ctx, out, rng)
-    _gap_correspondence(ctx, out, rng)
-    repaired_p2m_checks(ctx, out, rng, ctx.budget(300, 4000))
-    return out
+    # the model-vs-code ties get their own outcome so that a flood of spec failures above cannot crowd them out
+    ties = new_outcome()
+    _brute_force(ctx, ties, rng)
+    _classic_tie(ctx, ties, rng)
+    _gap_correspondence(ctx, ties, rng)
+    repaired_p2m_checks(ctx, ties, rng, ctx.budget(300, 4000))
+    from .common import merge_outcomes
+
+    rule = out["rule"]
+    res = merge_outcomes(ties, out)
+    res["rule"] = rule
+    res["failures"] = [f for f in res["failures"] if f["kind"] == "corr"][:100] + [f for f in res["failures"] if f["kind"] != "corr"][:150]
+    res["samples"] = out["samples"]
+    return res
 
 
 def _classic_tie(ctx, out, rng):
